@@ -11,3 +11,9 @@ pub fn random_state_new() -> std::collections::hash_map::RandomState {
     // RandomState is two u64 keys
     unsafe { std::mem::transmute::<(u64, u64), std::collections::hash_map::RandomState>((0x0123456789abcdef, 0xfedcba9876543210)) }
 }
+
+/// `OwnedTerm::estimated_encoded_size` only sizes the encoder's buffer (capacity hint); a symbolic
+/// capacity would be a symbolic-size allocation.  Its own panic-freedom is checked separately.
+pub fn est_size(_t: &erltf::OwnedTerm) -> usize {
+    63
+}
